@@ -55,7 +55,7 @@ def check_C01(fx, eng, rep, tier):
     rep.rule_text = 'C01.ADM / C01.REL / C01.STORE / C01.ROWS / C01.WHO / C10.UPG / C10.DOWN / C13.LOCKEXIT (+ MCS.* for MCSLock); one instance per (function, path class, write)'
     rep.trusted = ['clang 14 AST/CFG', 'cxxfacts extractor', 'induction over atomic steps (DESIGN.md 3.0)', 'S counter never overflows its field']
     rep.assumptions = ['fewer than 2^62 / 2^30 / 2^15 simultaneous shared holders', 'MCS: user-space addresses fit in 47 bits']
-    res = _locks(fx, eng, rep, ALL_LOCKS, ['C01.', 'C10.UPG', 'C10.DOWN', 'C13.LOCKEXIT', 'MCS.', 'C07.CONV', 'C07.FACTORY', 'C07.WHO'],
+    res = _locks(fx, eng, rep, ALL_LOCKS, ['C01.', 'C12.REL', 'C10.UPG', 'C10.DOWN', 'C13.LOCKEXIT', 'MCS.', 'C07.CONV', 'C07.FACTORY', 'C07.WHO'],
                  {'PessimisticLock': 20, 'OptimisticLock': 35, 'MCSLock': 20})
     # the invariant counts grants: every grant is released exactly once, on the lock it was taken on (guard typestate, C07)
     import guards
@@ -72,7 +72,7 @@ def check_C10(fx, eng, rep, tier):
     # word while X is set, i.e. every other write is certified on X = 0 (C01.ADM / C01.ROWS / C01.STORE of the same class)
     # MCSLock: the upgrade drains only the shared holders ahead of the SIX holder; that nobody else is inside rests on the
     # joiners' waits (MCS.WAIT), the inherited flags (MCS.INH) and the drain reads (MCS.DRAIN)
-    res = _locks(fx, eng, rep, ALL_LOCKS, ['C10.', 'C07.CONV', 'MCS.CONV', 'MCS.UPG', 'MCS.DOWN', 'MCS.WAIT', 'MCS.INH', 'MCS.DRAIN', 'C01.ADM', 'C01.ROWS', 'C01.STORE', 'C01.MASK'],
+    res = _locks(fx, eng, rep, ALL_LOCKS, ['C10.', 'C12.REL', 'C07.CONV', 'MCS.CONV', 'MCS.UPG', 'MCS.DOWN', 'MCS.WAIT', 'MCS.INH', 'MCS.DRAIN', 'C01.ADM', 'C01.ROWS', 'C01.STORE', 'C01.MASK', 'C01.TYPE', 'C01.CONV'],
                  {'PessimisticLock': 8, 'OptimisticLock': 8, 'MCSLock': 6})
     # a grant released twice clears the SIX / X bit of whoever holds it at that moment: the converted grant is only as safe as the typestate
     import guards
@@ -88,7 +88,7 @@ def check_C07(fx, eng, rep, tier):
     import guards
     guards.check_guards(fx, eng, rep, ALL_LOCKS, lock_sinks(fx, eng, ALL_LOCKS))
     # "released" means the release function really gives the grant back: its write applies the inverse delta (C01.REL / MCS.CLR)
-    _locks(fx, eng, rep, ALL_LOCKS, ['C07.', 'C01.ROWS', 'C01.REL', 'MCS.CLR'], {'PessimisticLock': 10, 'OptimisticLock': 14, 'MCSLock': 8})
+    _locks(fx, eng, rep, ALL_LOCKS, ['C07.', 'C01.ROWS', 'C01.REL', 'MCS.CLR', 'C01.TYPE'], {'PessimisticLock': 10, 'OptimisticLock': 14, 'MCSLock': 8})
 
 
 def check_C08(fx, eng, rep, tier):
@@ -99,7 +99,7 @@ def check_C08(fx, eng, rep, tier):
     rep.rule_text = 'C08.REL / C08.ACQ per (function, atomic site); sites not on a section boundary are listed in the evidence with the reason; + C01.ADM/ROWS/STORE/MASK/REL, C10.UPG/DOWN, MCS.* (exclusion premises)'
     rep.trusted = ['clang 14 constant evaluation of the order arguments', 'C++20 release-sequence rules']
     # two conflicting sections that overlap are not ordered at all: the exclusion rows are premises of the ordering argument
-    res = _locks(fx, eng, rep, ALL_LOCKS, ['C08.', 'C01.ADM', 'C01.ROWS', 'C01.STORE', 'C01.MASK', 'C01.REL', 'C10.UPG', 'C10.DOWN', 'MCS.', 'C12.LINK'],
+    res = _locks(fx, eng, rep, ALL_LOCKS, ['C08.', 'C12.REL', 'C01.ADM', 'C01.ROWS', 'C01.STORE', 'C01.MASK', 'C01.TYPE', 'C01.REL', 'C01.CONV', 'C10.UPG', 'C10.DOWN', 'MCS.', 'C12.LINK'],
                  {'PessimisticLock': 8, 'OptimisticLock': 12, 'MCSLock': 16})
     table = []
     for cls, (m, sink) in res.items():
@@ -154,7 +154,8 @@ def check_C03(fx, eng, rep, tier):
     for it in sink.items:
         # a validation that succeeds while the guard holds a shared grant relies on shared grants excluding exclusive ones:
         # the lock-mode rows of this class (admission, upgrade, downgrade, release) are premises of C03
-        if it['rule'].startswith(('C03.', 'C09.VAL', 'C09.FLOW', 'C01.ADM', 'C01.ROWS', 'C01.REL', 'C01.STORE', 'C01.MASK', 'C10.UPG', 'C10.DOWN')):
+        # (PrepareRead hands out versions too: its exits are C13.VEREXIT / LOCKEXIT)
+        if it['rule'].startswith(('C03.', 'C09.VAL', 'C09.FLOW', 'C01.ADM', 'C01.ROWS', 'C01.REL', 'C01.STORE', 'C01.MASK', 'C01.TYPE', 'C01.CONV', 'C10.UPG', 'C10.DOWN', 'C13.VEREXIT', 'C13.LOCKEXIT', 'C13.VERIFY')):
             n += 1
             getattr(rep, {'ok': 'ok', 'violated': 'violation', 'unsupported': 'unsupported'}[it['status']])(it['rule'], it['key'], it['loc'], it['detail'])
     for f in m.fns.values():
@@ -177,7 +178,7 @@ def check_C09(fx, eng, rep, tier):
     res = lock_sinks(fx, eng, ['OptimisticLock'])
     m, sink = res['OptimisticLock']
     # C02.ADMIT: no version value (the wrap-around value included) keeps an admissible exclusive request from being granted
-    n = sink.into(rep, ['C09.', 'C01.ADM', 'C01.REL', 'C10.UPG', 'C10.DOWN', 'C01.STORE', 'C01.WHO', 'C02.ADMIT'])
+    n = sink.into(rep, ['C09.', 'C01.ADM', 'C01.REL', 'C10.UPG', 'C10.DOWN', 'C01.STORE', 'C01.WHO', 'C01.TYPE', 'C01.CONV', 'C02.ADMIT'])
     # a failed TryLock* / a version read must not write the word at all
     for it in sink.items:
         if it['rule'].startswith(('C01.ROWS', 'C03.SAMPLE')) and ('TryLock' in it['key'] or 'GetVersion' in it['key'] or 'VerifyVersion' in it['key']):
@@ -200,7 +201,7 @@ def check_C11(fx, eng, rep, tier):
                        'the premises of the hand argument that no later conflicting arrival is granted first.')
     rep.rule_text = 'C11.TAIL, MCS.PUB, MCS.INH, MCS.LINK, MCS.WAIT, MCS.CLR, MCS.DRAIN per function and path class'
     rep.trusted = ['clang 14 AST/CFG', 'field abstraction of lock and node words', 'hand argument DESIGN.md C11', 'addresses fit in 47 bits']
-    _locks(fx, eng, rep, ['MCSLock'], ['C11.', 'MCS.PUB', 'MCS.INH', 'MCS.LINK', 'MCS.WAIT', 'MCS.CLR', 'MCS.DRAIN', 'MCS.UPG', 'MCS.DOWN', 'MCS.CONV', 'C01.MASK'], {'MCSLock': 20})
+    _locks(fx, eng, rep, ['MCSLock'], ['C11.', 'C12.REL', 'C12.LINK', 'C01.WHO', 'MCS.PUB', 'MCS.INH', 'MCS.LINK', 'MCS.WAIT', 'MCS.CLR', 'MCS.DRAIN', 'MCS.UPG', 'MCS.DOWN', 'MCS.CONV', 'C01.MASK', 'C01.TYPE'], {'MCSLock': 20})
 
 
 def check_C12(fx, eng, rep, tier):
@@ -213,7 +214,7 @@ def check_C12(fx, eng, rep, tier):
     rep.assumptions = ['not decided: stale pointers held by another thread (protocol-level argument)']
     # the recycle decision is taken on the word the release write certified: a release that clears more than its own
     # contribution (MCS.CLR) hands the node back while other members still refer to it
-    _locks(fx, eng, rep, ['MCSLock'], ['C12.', 'MCS.CLR', 'C01.MASK'], {'MCSLock': 12})
+    _locks(fx, eng, rep, ['MCSLock'], ['C12.', 'C01.WHO', 'MCS.CLR', 'C01.MASK', 'C01.TYPE'], {'MCSLock': 12})
 
 
 def check_C02(fx, eng, rep, tier):
@@ -224,7 +225,7 @@ def check_C02(fx, eng, rep, tier):
     rep.rule_text = 'C02.SPIN / C02.SPINFN / C02.HANDOFF / C02.PUBSTORE + C01.REL / MCS.CLR / C07.CONV'
     rep.trusted = ['clang 14 AST/CFG', 'field abstraction']
     rep.assumptions = ['liveness itself (fair schedules) is not decided; these are necessary conditions']
-    res = _locks(fx, eng, rep, ALL_LOCKS, ['C02.', 'C01.REL', 'MCS.CLR', 'MCS.WAIT', 'MCS.LINK', 'C07.CONV', 'C01.ROWS', 'C01.MASK'], {'PessimisticLock': 10, 'OptimisticLock': 14, 'MCSLock': 14})
+    res = _locks(fx, eng, rep, ALL_LOCKS, ['C02.', 'C12.REL', 'C01.REL', 'MCS.CLR', 'MCS.WAIT', 'MCS.LINK', 'C07.CONV', 'C01.ROWS', 'C01.MASK', 'C01.TYPE', 'C01.CONV'], {'PessimisticLock': 10, 'OptimisticLock': 14, 'MCSLock': 14})
     # a grant that is released twice (or never) leaves the word non-free for ever: the guard typestate is a necessary condition of progress
     import guards
     guards.check_guards(fx, eng, rep, ALL_LOCKS, res, typestate_only=True)
@@ -273,7 +274,7 @@ def check_C15(fx, eng, rep, tier):
                        'by the destructor only, GetHeartBeat returns a weak_ptr to it, and HeartBeater cannot be copied (no second owner of the control block).')
     rep.rule_text = 'C15.ORDER / C15.SYNC / C15.LIFE on ~HeartBeater, the claim loop, SetID, GetHeartBeat'
     rep.trusted = ['clang 14 CFG with implicit destructors', 'std::shared_ptr/weak_ptr semantics (expired <=> no owner)']
-    n = _take(rep, sink, ['C15.', 'C05.CLAIM', 'C05.WHO', 'C05.STABLE', 'C14.FREE'])
+    n = _take(rep, sink, ['C15.', 'C05.CLAIM', 'C05.WHO', 'C05.STABLE', 'C05.INIT', 'C14.FREE'])
     _thread_fns(rep, fx, ('id_manager.cpp',))
     rep.floor('C15 obligations', n, 8)
 
@@ -305,7 +306,7 @@ def check_C14(fx, eng, rep, tier):
     rep.rule_text = 'C14.FREE / C14.PROBE + C05.WHO / C05.STABLE(thread_local)'
     rep.trusted = ['clang 14 AST/CFG']
     rep.assumptions = ['liveness under over-subscription is not decided; these are its necessary conditions']
-    n = _take(rep, sink, ['C14.', 'C05.WHO', 'C05.STABLE', 'C05.CLAIM'])
+    n = _take(rep, sink, ['C14.', 'C05.WHO', 'C05.STABLE', 'C05.CLAIM', 'C05.INIT'])
     _ids_other_capacity(rep, ['C14.', 'C05.WHO', 'C05.STABLE'])
     _thread_fns(rep, fx, ('id_manager.cpp',))
     rep.floor('C14 obligations', n, 6)
@@ -329,7 +330,8 @@ def check_C04(fx, eng, rep, tier):
     rep.trusted = ['clang 14 AST/CFG', 'single coordinator calls ForwardGlobalEpoch (documented contract)', 'std::sort/unique/erase semantics']
     rep.assumptions = ['visibility of the relaxed pin store to the scan is read as happens-before ("completely created before")']
     n = _take(rep, sink, ['C04.', 'C16.SORT', 'C16.MIN'])
-    n += _take(rep, sink2, ['C15.ORDER', 'C15.SYNC'])
+    # a slot is protected by its owner's pin only if no second live thread owns the same slot: the uniqueness rows of the IDs
+    n += _take(rep, sink2, ['C15.ORDER', 'C15.SYNC', 'C05.INIT', 'C05.WHO', 'C05.CLAIM', 'C14.FREE'])
     _thread_fns(rep, fx, EPOCH_TUS)
     rep.floor('C04 obligations', n, 25)
 
@@ -344,7 +346,11 @@ def check_C16(fx, eng, rep, tier):
                        'skips only the sentinel and expired slots and appends cur+1 and cur unconditionally, so without guards the list is {cur+1, cur}.')
     rep.rule_text = 'C16.INIT / C16.STEP / C16.MIN / C16.SORT + C04.SCAN / C04.ENTER / C04.PUBLISH'
     rep.trusted = ['clang 14 AST/CFG', 'single coordinator', 'std::sort/unique/erase semantics']
-    n = _take(rep, sink, ['C16.', 'C04.SCAN', 'C04.ENTER', 'C04.PUBLISH', 'C04.GUARD', 'C20.ALLOC', 'C17.OWN', 'C17.PUB'])
+    n = _take(rep, sink, ['C16.', 'C04.SCAN', 'C04.ENTER', 'C04.PUBLISH', 'C04.GUARD', 'C04.TYPE', 'C20.ALLOC', 'C17.OWN', 'C17.PUB'])
+    # every epoch property rests on one slot per live thread: the uniqueness rows of the thread IDs are premises
+    import ids as _ids
+    _r2, _sink2 = _ids.analyse(fx, eng)
+    n += _take(rep, _sink2, ['C15.ORDER', 'C15.SYNC', 'C05.INIT', 'C05.WHO', 'C05.CLAIM', 'C14.FREE'])
     _thread_fns(rep, fx, EPOCH_TUS)
     rep.floor('C16 obligations', n, 15)
 
@@ -360,7 +366,11 @@ def check_C17(fx, eng, rep, tier):
                        'stalled between reading the global epoch and publishing its pin (documented observation O2).')
     rep.rule_text = 'C17.OWN / C17.CONST / C17.FREE / C17.PUB / C17.SHARED + C20.UAF + C04.SCAN / C16.SORT (shape of the list)'
     rep.trusted = ['clang 14 AST/CFG', 'clang++ for the witness', 'single coordinator']
-    n = _take(rep, sink, ['C17.', 'C20.UAF', 'C20.ALLOC', 'C04.SCAN', 'C16.SORT', 'C04.PUBLISH', 'C16.STEP', 'C04.BIND', 'C04.GUARD', 'C04.ENTER'])
+    n = _take(rep, sink, ['C17.', 'C20.UAF', 'C20.ALLOC', 'C04.SCAN', 'C16.SORT', 'C04.PUBLISH', 'C16.STEP', 'C04.BIND', 'C04.GUARD', 'C04.ENTER', 'C04.TYPE'])
+    # every epoch property rests on one slot per live thread: the uniqueness rows of the thread IDs are premises
+    import ids as _ids
+    _r2, _sink2 = _ids.analyse(fx, eng)
+    n += _take(rep, _sink2, ['C15.ORDER', 'C15.SYNC', 'C05.INIT', 'C05.WHO', 'C05.CLAIM', 'C14.FREE'])
     from witness import run_witness
     w = run_witness(fx.flags, ['dbgroup/thread/epoch_manager.hpp'],
                     [('second is const vector&', 'std::is_same_v<decltype(std::declval<dbgroup::thread::EpochManager &>().GetProtectedEpochs().second), const std::vector<size_t> &>', '')])
@@ -380,7 +390,11 @@ def check_C20(fx, eng, rep, tier):
     rep.rule_text = 'C20.ALLOC / C20.WALK / C20.KEEP / C20.UAF + C17.FREE / C17.OWN (node lookup) + C04.SCAN / C04.PUBLISH / C16.SORT / C16.MIN'
     rep.trusted = ['clang 14 AST/CFG', 'std::sort/unique/erase semantics']
     rep.assumptions = ['the retention bound is decided only through C20.KEEP / C20.WALKINV (necessary conditions)']
-    n = _take(rep, sink, ['C20.', 'C17.FREE', 'C17.OWN', 'C04.SCAN', 'C04.PUBLISH', 'C16.SORT', 'C16.MIN', 'C04.GUARD', 'C04.ENTER', 'C04.BIND'])
+    n = _take(rep, sink, ['C20.', 'C17.FREE', 'C17.OWN', 'C04.SCAN', 'C04.PUBLISH', 'C16.SORT', 'C16.MIN', 'C16.INIT', 'C04.GUARD', 'C04.ENTER', 'C04.BIND', 'C04.TYPE'])
+    # every epoch property rests on one slot per live thread: the uniqueness rows of the thread IDs are premises
+    import ids as _ids
+    _r2, _sink2 = _ids.analyse(fx, eng)
+    n += _take(rep, _sink2, ['C15.ORDER', 'C15.SYNC', 'C05.INIT', 'C05.WHO', 'C05.CLAIM', 'C14.FREE'])
     _thread_fns(rep, fx, EPOCH_TUS)
     rep.floor('C20 obligations', n, 15)
 
@@ -397,7 +411,8 @@ def check_C19(fx, eng, rep, tier):
                        'where that test failed (CTOR.REJECT). Equality of output sequences follows from these (same inputs, no hidden state) and is not observed.')
     rep.rule_text = 'C19.CONST / C19.NOMUT / C19.TLS / C19.DEPS / C19.REJECT per instantiation (8)'
     rep.trusted = ['clang 14 AST/CFG of the instantiated templates', 'clang++ / g++ for the witnesses', 'allow-listed std distributions keep no state between calls']
-    n = _take(rep, sink, ['C19.'])
+    # equal parameters give equal outputs only if every member that changes a parameter rebuilds all the state derived from it
+    n = _take(rep, sink, ['C19.', 'C06.DENOM', 'C06.BUILD'])
     for f in fx.functions.values():
         if 'Zipf' in f['name']:
             rep.saw_fn(f)
@@ -412,12 +427,14 @@ def check_C06(fx, eng, rep, tier):
     rep.explanation = ('Necessary conditions of the range clause only (each one, if broken, yields a value outside [min, max] or a non-zero default): Z.PIN (the exact table\'s last '
                        'entry is stored as the literal 1.0 after every other table write), Z.DENOM (the approximate reader divides H(id+1) by denom_ = H(n_), n_ = max-min+1, so the '
                        'last bin is x/x), Z.SWITCH (reader threshold, table extent and kExactBinNum agree), Z.ACCESS (bounds-checked table reads), Z.DEFAULT (defaults describe the '
-                       'single bin [0,0] and the single-bin branch stores {1.0}), Z.RANGE (search starts on [0, bins-1], result = min + position). NOT decided: that the binary search '
+                       'single bin [0,0] and the single-bin branch stores {1.0}), Z.RANGE (search starts on [0, bins-1], result = min + position), Z.BUILD (the table is appended to only during construction or after being emptied), CTOR.REJECT (exactly max < min is rejected). NOT decided: that the binary search '
                        'returns the inverse-CDF image for every variate (a changed comparison in the search is not detected by this check).')
     rep.rule_text = 'C06.PIN / C06.DENOM / C06.SWITCH / C06.ACCESS / C06.DEFAULT / C06.RANGE per instantiation (8)'
     rep.trusted = ['clang 14 AST/CFG of the instantiated templates']
     rep.assumptions = ['inverse-CDF correctness of the search loop is not decided']
-    n = _take(rep, sink, ['C06.'])
+    # the claims hold for every admissible (min, max, alpha): the constructors accept exactly max >= min (C19.REJECT), and a generator
+    # that was copied / moved / re-parameterised still describes its range (C19.CONST memberwise, C06.BUILD)
+    n = _take(rep, sink, ['C06.', 'C19.REJECT'])
     for f in fx.functions.values():
         if 'Zipf' in f['name']:
             rep.saw_fn(f)
